@@ -240,6 +240,8 @@ package cputensor
 
 // Whole-tensor statistics are *defined* as left folds over the data tree in row-major order (foldD / foldK), from the
 // neutral start value; the code's recursion trav is proved to compute exactly that fold.
+//@ axiom foldDDef: forallF(f, forallD(d, forallI(n, forallR(a, foldD(f, d, n, a) == ite(n <= 0, app2(f, a, fval(d)), foldK(f, d, n, a, slen(d)))))))
+//@ axiom foldKDef: forallF(f, forallD(d, forallI(n, forallR(a, forallI(k, foldK(f, d, n, a, k) == ite(k <= 0, a, foldD(f, child(d, k-1), n-1, foldK(f, d, n, a, k-1))))))))
 //@ predicate isPlusFn(f Fn) := forallR(a, forallR(b, app2(f, a, b) == a + b))
 //@ predicate isMaxFn(f Fn) := forallR(a, forallR(b, app2(f, a, b) == ite(a > b, a, b)))
 //@ predicate isMinFn(f Fn) := forallR(a, forallR(b, app2(f, a, b) == ite(a < b, a, b)))
@@ -252,9 +254,10 @@ package cputensor
 
 //@ func CPUTensor.reduceByAssociativeFunc
 //@   requires t != nil && published(t) && af != nil
-//@   uses dimsLink, dataLink
+//@   uses dimsLink, dataLink, foldDDef, foldKDef
 //@   ensures value == foldD(af, t.data, len(t.dims), identity)
 //@ func CPUTensor.reduceByAssociativeFunc#0
+//@   uses foldDDef, foldKDef
 //@   requires af != nil && forall(k, 0, len(dims), dims[k] >= 0) && WF(data, arrOf(dims), offOf(dims), endOf(dims))
 //@   modifies value
 //@   ensures value == foldD(af, data, len(dims), old(value))
@@ -668,6 +671,9 @@ package cputensor
 //@   ensures o != nil && rank(o) == rank(t) && forall(k, 0, rank(t)-2, dim(o, k) == dim(t, k)) && dim(o, rank(t)-2) == dim(t, rank(t)-2) && dim(o, rank(t)-1) == dim(u, rank(u)-1)
 //@   ensures forallJ(J, imp(inb(o, J), el(o, J) == msum(t, u, J)))
 
+// COUNT (paper lemma): Equals sums the 0/1 tensor of position-wise comparisons and compares with the element count; the
+// sum reaches the count iff every entry is 1. (A machine-checked version over the fold definition - number of one-leaves
+// of a tree, two nested inductions - was started and dropped: the inner induction step did not discharge, DESIGN.md 0.7.)
 //@ func CPUTensor.equals
 //@   requires u != nil && sameShape(t, u)
 //@   assumed counting argument (sum of 0/1 values >= n iff all are 1: lemma COUNT); bounded stand-in: rac TestElementwise
